@@ -3,6 +3,10 @@
 set -e
 cd "$(dirname "$0")"
 export CARGO_NET_OFFLINE=true RUSTUP_TOOLCHAIN=stable-x86_64-unknown-linux-gnu
+# start from sources only: compiled Coq files copied over from somewhere else (or cut short by an interrupted
+# build) would be taken for up to date by make and then fail to load
+find coq \( -name '*.vo' -o -name '*.vos' -o -name '*.vok' -o -name '*.glob' -o -name '.*.aux' -o -name '.lia.cache' \) -delete 2>/dev/null || true
+rm -f coq/Makefile coq/Makefile.conf coq/.Makefile.d
 python3 - <<'PY'
 import sys; sys.path.insert(0, "lib")
 import common as C
